@@ -16,8 +16,10 @@ theorem add_scaffold_is_source (d : List (Str × Scaffold)) (ix : List (Str × L
   unfold Gen.Imp.IndexedAssembly_add_scaffold
   split
   · rfl
-  · rw [ImpSmall.forIn_pure ImpSmall.idxStep _ (fun _ _ => rfl), ImpSmall.foldl_idxStep]
-    simp [bind, Except.bind, buildIndex]
+  · dsimp only
+    rw [ImpSmall.forIn_pure ImpSmall.idxStep, ImpSmall.foldl_idxStep]
+    · simp [bind, Except.bind, buildIndex]
+    · intro row s; rfl
 
 /-- the generated function runs: two fragments and a gap are indexed by their cumulative ends … -/
 example :
@@ -27,10 +29,10 @@ example :
     = .ok ([(['s'], { name := ['s'], rows := [.frag { name := ['c'], start := 1, stop := 5, strand := 1 },
                                             .gap { length := 200, gapType := ['s'] },
                                             .frag { name := ['d'], start := 11, stop := 20, strand := -1 }] })],
-           [(['s'], [5, 205, 215])]) := by decide
+           [(['s'], [5, 205, 215])]) := by rfl
 
 /-- … and a second scaffold of the same name is refused -/
 example :
-    Gen.Imp.IndexedAssembly_add_scaffold [(['s'], { name := ['s'] })] [(['s'], [])] { name := ['s'] } = .error .value := by decide
+    Gen.Imp.IndexedAssembly_add_scaffold [(['s'], { name := ['s'] })] [(['s'], [])] { name := ['s'] } = .error .value := by rfl
 
 end AgpTpf.C12
